@@ -27,6 +27,7 @@ type bitLoop struct {
 	init  ssa.Value // first bit
 	bound ssa.Value // one past the last bit
 	store ssa.Instruction
+	sub   Subst           // the parameters of the helper that holds the loop, as seen by the analysed function
 	at    ssa.Instruction // the instruction of the analysed function through which the loop runs (the store, or the call of the helper that holds the loop)
 }
 
@@ -59,7 +60,9 @@ func bitLoopsIn(sc Scope) []bitLoop {
 			if !ok || or.Op != token.OR {
 				continue
 			}
-			q, ok := ia.Index.(*ssa.BinOp)
+			// byte index and bit may be computed by a small pure helper ("byte, bit := bitPos(bn)")
+			idxV, idxS := viaPure(ia.Index, sc.S)
+			q, ok := idxV.(*ssa.BinOp)
 			if !ok || q.Op != token.QUO {
 				continue
 			}
@@ -67,7 +70,7 @@ func bitLoopsIn(sc Scope) []bitLoop {
 				continue
 			}
 			// the bit number: the loop variable, possibly handed to a helper / closure as an argument
-			phi, ok := sc.S.resolve(q.X).(*ssa.Phi)
+			phi, ok := idxS.resolve(q.X).(*ssa.Phi)
 			if !ok || len(phi.Edges) != 2 {
 				continue
 			}
@@ -85,8 +88,9 @@ func bitLoopsIn(sc Scope) []bitLoop {
 				continue
 			}
 			one, is1 := constInt(sh.X)
-			rem, ok := sh.Y.(*ssa.BinOp)
-			if !ok || !is1 || one != 1 || rem.Op != token.REM || sc.S.resolve(rem.X) != ssa.Value(phi) {
+			remV, remS := viaPure(sh.Y, sc.S)
+			rem, ok := remV.(*ssa.BinOp)
+			if !ok || !is1 || one != 1 || rem.Op != token.REM || remS.resolve(rem.X) != ssa.Value(phi) {
 				continue
 			}
 			if k, isk := constInt(rem.Y); !isk || k != 8 {
@@ -157,7 +161,7 @@ func bitLoopsIn(sc Scope) []bitLoop {
 			if sc.Via != nil {
 				at = sc.Via
 			}
-			out = append(out, bitLoop{slice: sc.S.resolve(ia.X), init: sc.S.resolve(init), bound: sc.S.resolve(bound), store: in, at: at})
+			out = append(out, bitLoop{slice: resultOf(sc.S.resolve(ia.X)), init: sc.S.resolve(init), bound: sc.S.resolve(bound), store: in, sub: sc.S, at: at})
 		}
 	}
 	return out
@@ -201,7 +205,7 @@ func ruleK6(c *Ctx, id string) {
 	ok1 := stripConv(l1.bound) == ssa.Value(nP)
 	R.Check(ok1, id, "nfs.markAlloc|head loop marks [0, n)", P.Pos(l1.store.Pos()), "the first loop sets exactly bits 0 .. n-1 (log, bitmaps and inode table)", "bounds 0 and n", "the head of the block bitmap is marked with other bounds than [0, n): a metadata block is left free or a data block is lost")
 	okInit := false
-	if rem, ok := stripConv(l2.init).(*ssa.BinOp); ok && rem.Op == token.REM && stripConv(rem.X) == ssa.Value(mP) {
+	if rem, ok := stripConv(l2.init).(*ssa.BinOp); ok && rem.Op == token.REM && l2.sub.resolve(rem.X) == ssa.Value(mP) {
 		if k, isk := constInt(rem.Y); isk && k == nbit {
 			okInit = true
 		}
@@ -213,18 +217,18 @@ func ruleK6(c *Ctx, id string) {
 	for _, b := range mark.Blocks {
 		for _, in := range b.Instrs {
 			if k, ok := rawDiskOp(in); ok && k == "write" {
-				data := callCommon(in).Args[1]
-				if stripConv(data) == stripConv(l1.slice) {
+				data := resultOf(callCommon(in).Args[1])
+				if data == stripConv(l1.slice) {
 					w1 = in
 				}
-				if stripConv(data) == stripConv(l2.slice) {
+				if data == stripConv(l2.slice) {
 					w2 = in
 				}
 			}
 		}
 	}
 	isStart := func(v ssa.Value) bool {
-		cl, ok := stripConv(v).(*ssa.Call)
+		cl, ok := resultOf(v).(*ssa.Call)
 		return ok && cl.Call.StaticCallee() != nil && cl.Call.StaticCallee().Name() == "BitmapBlockStart"
 	}
 	okW1 := w1 != nil && isStart(callCommon(w1).Args[0]) && reachableFrom(l1.at, w1)
@@ -232,10 +236,10 @@ func ruleK6(c *Ctx, id string) {
 	okW2 := false
 	var blkno ssa.Value
 	if w2 != nil && reachableFrom(l2.at, w2) {
-		blkno = stripConv(callCommon(w2).Args[0])
+		blkno = resultOf(callCommon(w2).Args[0])
 		if add, ok := blkno.(*ssa.BinOp); ok && add.Op == token.ADD {
 			for _, pr := range [][2]ssa.Value{{add.X, add.Y}, {add.Y, add.X}} {
-				if q, ok := stripConv(pr[0]).(*ssa.BinOp); ok && q.Op == token.QUO && stripConv(q.X) == ssa.Value(mP) {
+				if q, ok := stripConv(pr[0]).(*ssa.BinOp); ok && q.Op == token.QUO && l2.sub.resolve(q.X) == ssa.Value(mP) {
 					if k, isk := constInt(q.Y); isk && k == nbit && isStart(pr[1]) {
 						okW2 = true
 					}
@@ -249,12 +253,12 @@ func ruleK6(c *Ctx, id string) {
 	if phi, ok := l2.slice.(*ssa.Phi); ok && len(phi.Edges) == 2 && okW2 {
 		for i, e := range phi.Edges {
 			other := phi.Edges[1-i]
-			if e == l1.slice {
+			if resultOf(l2.sub.resolve(e)) == l1.slice {
 				// the other edge: fresh block, entered only when blkno > BitmapBlockStart()
 				if sl, ok := other.(*ssa.Slice); ok {
 					if _, isAlloc := sl.X.(*ssa.Alloc); isAlloc {
 						fresh := phi.Block().Preds[1-i]
-						okPhi = guardedBy(mark, fresh, func(cd Cond) (bool, bool) {
+						okPhi = guardedBy(phi.Block().Parent(), fresh, func(cd Cond) (bool, bool) {
 							if cd.X == nil || cd.Y == nil {
 								return false, false
 							}
@@ -699,7 +703,7 @@ func ruleK3(c *Ctx, id string) {
 	for _, b := range mark.Blocks {
 		for _, in := range b.Instrs {
 			if k, ok := rawDiskOp(in); ok && k == "write" {
-				if cl, ok := stripConv(callCommon(in).Args[0]).(*ssa.Call); ok && cl.Call.StaticCallee() != nil && cl.Call.StaticCallee().Name() == "BitmapInodeStart" {
+				if cl, ok := resultOf(callCommon(in).Args[0]).(*ssa.Call); ok && cl.Call.StaticCallee() != nil && cl.Call.StaticCallee().Name() == "BitmapInodeStart" {
 					wroteAtInodeBitmap = true
 				}
 			}
@@ -796,4 +800,78 @@ func cutOnTheWay(v ssa.Value, seen map[ssa.Value]bool) *ssa.Slice {
 		}
 	}
 	return nil
+}
+
+// viaPure: v is a result of a small pure helper (sym.go): the expression the
+// helper returns there, with the helper's parameters bound to the arguments.
+func viaPure(v ssa.Value, sub Subst) (ssa.Value, Subst) {
+	v = stripConv(v)
+	var cl *ssa.Call
+	idx := 0
+	switch x := v.(type) {
+	case *ssa.Extract:
+		cl, _ = x.Tuple.(*ssa.Call)
+		idx = x.Index
+	case *ssa.Call:
+		cl = x
+	}
+	if cl == nil {
+		return v, sub
+	}
+	cal := cl.Call.StaticCallee()
+	if cal == nil || !pureHelper(cal) {
+		return v, sub
+	}
+	s2 := Subst{}
+	for k, a := range sub {
+		s2[k] = a
+	}
+	for i, p := range cal.Params {
+		if i < len(cl.Call.Args) {
+			s2[p] = sub.resolve(cl.Call.Args[i])
+		}
+	}
+	blk := cal.Blocks[0]
+	if r, ok := blk.Instrs[len(blk.Instrs)-1].(*ssa.Return); ok && idx < len(r.Results) {
+		return stripConv(r.Results[idx]), s2
+	}
+	return v, sub
+}
+
+// resultOf: v seen through the results of private helpers that have a single
+// return: the value the helper returns at that position (conversions and
+// single-assignment cells removed).
+func resultOf(v ssa.Value) ssa.Value {
+	for i := 0; i < 4; i++ {
+		v = stripConv(v)
+		var cl *ssa.Call
+		idx := 0
+		switch x := v.(type) {
+		case *ssa.Extract:
+			cl, _ = x.Tuple.(*ssa.Call)
+			idx = x.Index
+		case *ssa.Call:
+			cl = x
+		}
+		if cl == nil {
+			return v
+		}
+		cal := cl.Call.StaticCallee()
+		if cal == nil || !IsRepoFunc(cal) || !isPrivateHelper(cal) || cal.Blocks == nil {
+			return v
+		}
+		var ret *ssa.Return
+		n := 0
+		for _, b := range cal.Blocks {
+			if r, ok := b.Instrs[len(b.Instrs)-1].(*ssa.Return); ok {
+				ret = r
+				n++
+			}
+		}
+		if n != 1 || idx >= len(ret.Results) {
+			return v
+		}
+		v = ret.Results[idx]
+	}
+	return stripConv(v)
 }
